@@ -1047,6 +1047,10 @@ func (ctx *Context) evaluate() {
 				return
 			}
 
+			if numOpCountAdd(wodState.pool) {
+				return
+			}
+
 			num, _, _, detailText := RollWoD(ctx.RandSrc, addLine, wodState.pool, wodState.points, wodState.threshold, wodState.isGE, getRollMode())
 			ret := NewIntVal(num)
 			details[len(details)-1].Ret = ret
@@ -1078,6 +1082,9 @@ func (ctx *Context) evaluate() {
 				return
 			}
 			if !doubleCrossCheck(ctx, addLine, dcState.pool, dcState.points) {
+				return
+			}
+			if numOpCountAdd(dcState.pool) {
 				return
 			}
 			success, _, _, detailText := RollDoubleCross(ctx.RandSrc, addLine, dcState.pool, dcState.points, getRollMode())
